@@ -1,6 +1,7 @@
 from operator import xor
 
 import numpy as np
+from pb_bss import _verif
 from dataclasses import dataclass
 from pb_bss.distribution.mixture_model_utils import (
     estimate_mixture_weight,
@@ -128,6 +129,7 @@ class GMMTrainer:
         for iteration in range(iterations):
             if model is not None:
                 affiliation = model.predict(y)
+                if _verif.enabled: _verif.emit('estep', trainer=self, iteration=iteration, model=model, affiliation=affiliation, quadratic_form=None)
 
             model = self._m_step(
                 y,
@@ -137,6 +139,7 @@ class GMMTrainer:
                 covariance_type=covariance_type,
                 fixed_covariance=fixed_covariance,
             )
+            if _verif.enabled: _verif.emit('mstep', trainer=self, iteration=iteration, model=model, affiliation=affiliation, quadratic_form=None)
 
         return model
 
